@@ -227,7 +227,7 @@ def floatPow (x y : Float) : Except Err Float :=
   if y == 0.0 then .ok 1.0
   else if x.isNaN then .ok x
   else if y.isNaN then .ok (if x == 1.0 then 1.0 else y)
-  else if x == 0.0 && y < 0.0 then .error "err:zerodiv"
+  else if x == 0.0 && y < 0.0 && y.isFinite then .error "err:zerodiv"   -- `0.0 ** -inf` is `inf` (the infinite exponent is tested first)
   else if x < 0.0 && x.isFinite && y.isFinite && y.floor != y then .error "err:complex"
   else
     let r := x.pow y
